@@ -77,7 +77,7 @@ F64_ASSUME = [
     'what is proved is which primitive is applied to which values, not its bit-level meaning',
     'T20 (unary minus on floats), T8 (f64 constants), T22 (int<->float casts), T15 (`x op= e` read as `x = x op (e)`), T14 (`/` on i64 is truncated division, panics on 0 and MIN / -1), '
     'T12 (the any-NaN test; the sort idiom: its comparator unwraps partial_cmp, which is None only for NaN, and the sort returns a permutation) extraction rewrites: every helper body is the original primitive',
-    'literal facts (contracts/f64_header.vinc): a double that is neither > 170.0 nor < 0.0 casts to a usize <= 170; counting 0.0 + 1.0 + .. up to 64 is exact; an i64 converted to f64 is never NaN',
+    'literal facts (contracts/f64_header.vinc): a double that is not > 170.0 casts to a usize <= 170 (the saturating cast sends NaN and negative values to 0); counting 0.0 + 1.0 + .. up to 64 is exact; an i64 converted to f64 is never NaN',
 ]
 ALL_V = ['i64-ast', 'decimal-ast', 'complex-ast', 'f64-ast', 'number-ast'] + PARSERS + TOKS + GLUES
 
